@@ -63,6 +63,20 @@ CHECKS.update({
    note="Python json with NaN/Infinity rejected defines validity; short type names reconstructed from acc: option names"),
 })
 
+CHECKS.update({
+ "C06": dict(level="exploration", engine="hypothesis", design="3/C06",
+   technique="Hypothesis-generated objective expressions over generated argument boxes, accept-all ModelAPI; every delivered functional constraint is sampled and evaluated by an independent reference (exact / libm) against the result variable's bounds and type",
+   text="For each functional constraint the recording ModelAPI receives, argument points are drawn from the delivered argument boxes and the function "
+        "value must lie within the result variable's bounds (tolerance 1e-9 relative) and be integral if the variable is declared integer.",
+   note="objective-only models so that no root constraint narrows a result; arguments of domain-restricted functions (log, fractional powers, ...) are not judged"),
+ "C07": dict(level="exploration", engine="hypothesis", design="3/C07",
+   technique="Hypothesis-generated (model, grid point, single damage far above/below tolerance, check options); two-run protocol with the scripted solver returning the exact forward-evaluated candidate; reference evaluator decides the expected verdict",
+   text="The candidate consists of a grid point and the exact values of all expressions; it is left intact or damaged in one way (bound, integrality, "
+        "expression value) by 2^-6 or 2^-40. The 'Tolerance violations' warning and solve code 150 under sol:chk:fail must appear iff the NL model is "
+        "violated at the point or the damage is far above tolerance.",
+   note="accept-all configuration; no objectives; the tolerance band between the two margins is not generated (don't-care)"),
+})
+
 NOT_APPLICABLE = []
 
 def main():
